@@ -58,6 +58,7 @@ PROBES = ["waiter_parked_on_thread_lock_during_swap", "two_first_starts_racing",
           "process_lock_creation_failed", "synchronized_call_raised", "screen_write_step",
           "screen_input_poll_step", "process_start_wrapped_by_someone_else_before_import",
           "write_cut_short", "terminal_without_echo_at_entry",
+          "interpreter_without_shared_arrays", "synchronized_call_lasting_seconds",
           "process_start_failed_after_hand_over"]
 COMPONENTS = {
     "real": ["term_image.utils.lock_tty / query_terminal / read_tty / write_tty / get_cell_size",
@@ -139,7 +140,11 @@ def gen_program(ch, depth, budget, mode="getters"):
         if depth < 2 and budget[0] > 0:
             kinds.append((4, "start"))
         kind = ch.weighted("step", kinds)
-        if kind == "probe":
+        if kind == "probe" and ch.bool("slow", 0.12):
+            # a synchronized call that takes its time (a blocking read, a slow render under
+            # the lock): seconds, not microseconds - whoever needs the lock waits that long
+            steps.append(("probe_slow", ch.pick("hold_s", (1.2, 2.5, 4.0))))
+        elif kind == "probe":
             if ch.bool("raises", 0.15):
                 # a synchronized function that fails: the caller survives and goes on
                 steps.append(("probe_raise", ch.int("nest", 1, 2)))
@@ -227,6 +232,11 @@ def run(ch, ctx, fault=None):
     cur_late = [False]
     decrqm_re = re.compile(rb"\x1b\[\?(\d+);0\$y")
 
+    if budget[0] and fault is None and ch.bool("no_sharedctypes", 0.12):
+        # no shared arrays on this interpreter (ctypes missing): the cell-size cache cannot be
+        # shared - the terminal lock still is
+        k.no_sharedctypes = True
+        ctx.probe("interpreter_without_shared_arrays")
     if mode == "late" and ch.bool("echo_off_at_entry", 0.5):
         # the application already runs the terminal without echo (a TUI): a query still has to
         # discard whatever stale input is waiting before it sends its request
@@ -376,10 +386,12 @@ def run(ch, ctx, fault=None):
                           "late")
 
         def make_probe(utils, name):
-            def body(depth, fail=False):
+            def body(depth, fail=False, hold=0):
                 mon.enter(name)
                 try:
                     k.yield_point("probe-body")
+                    if hold:
+                        k.sleep(hold)
                     if depth > 1:
                         ctx.probe("nested_reentrant_call")
                         probe(depth - 1, fail)
@@ -398,6 +410,9 @@ def run(ch, ctx, fault=None):
                 kind = st[0]
                 if kind == "probe":
                     probe(st[1])
+                elif kind == "probe_slow":
+                    ctx.probe("synchronized_call_lasting_seconds")
+                    probe(1, False, st[1])
                 elif kind == "probe_raise":
                     try:
                         probe(st[1], True)
